@@ -31,7 +31,16 @@ pub fn guarded<T>(f: impl FnOnce() -> T) -> Result<T, String> {
 }
 
 pub fn quiet_panics() {
-    std::panic::set_hook(Box::new(|_| {}));
+    if std::env::var("ITV_PANICS").is_ok() {
+        // report where the library panicked (diagnosis of C14 findings)
+        std::panic::set_hook(Box::new(|info| {
+            if let Some(l) = info.location() {
+                eprintln!("PANIC at {}:{}", l.file(), l.line());
+            }
+        }));
+    } else {
+        std::panic::set_hook(Box::new(|_| {}));
+    }
 }
 
 /// "ok" / "err" / "panic" for a guarded library result
